@@ -125,20 +125,23 @@ impl Monitor for M {
                         vals.push(v as u32 as i32);
                     }
                 }
-                roundtrip_block(&vals, obs);
+                roundtrip_block(&vals, Distinct::Hashed, obs);
             }
-            "roundtrip_boundary" => roundtrip_block(&boundary_values(), obs),
+            "roundtrip_boundary" => {
+                let d = if obs.tier == Tier::Quick { Distinct::Hashed } else { Distinct::AlreadyCounted };
+                roundtrip_block(&boundary_values(), d, obs)
+            }
             "roundtrip_random" => {
                 // 2^16 values: half uniform over all bit patterns, half biased to legal dimensions and short decimals
                 let vals: Vec<i32> = (0..1 << 16)
                     .map(|i| if i & 1 == 0 { rng.next_u32() as i32 } else { hostile_fix(rng) })
                     .collect();
-                roundtrip_block(&vals, obs);
+                roundtrip_block(&vals, Distinct::Hashed, obs);
             }
             "roundtrip_all" => {
                 let lo = idx << CHUNK_BITS;
                 let vals: Vec<i32> = (lo..lo + (1 << CHUNK_BITS)).map(|v| v as u32 as i32).collect();
-                roundtrip_block(&vals, obs);
+                roundtrip_block(&vals, Distinct::ByConstruction, obs);
             }
             "containers" => containers_case(rng, obs),
             "scaled_all_10pt" => scaled_all_case(idx, obs),
@@ -190,14 +193,25 @@ fn boundary_values() -> Vec<i32> {
         .collect()
 }
 
-fn roundtrip_block(vals: &[i32], obs: &mut Obs) {
+/// How the values of a block enter the distinct-case count.
+#[derive(Clone, Copy)]
+enum Distinct {
+    /// consecutive patterns of the exhaustive sweep
+    ByConstruction,
+    /// sampled values: through the hash set (phases may overlap)
+    Hashed,
+    /// boundary values in the thorough tier: the sweep counts them
+    AlreadyCounted,
+}
+
+fn roundtrip_block(vals: &[i32], distinct: Distinct, obs: &mut Obs) {
     for chunk in vals.chunks(DOC_BATCH) {
-        roundtrip_doc(chunk, obs);
+        roundtrip_doc(chunk, distinct, obs);
     }
 }
 
 /// One PL document: `(LIGTABLE (KRN C A R v1) (KRN C A R v2) ... )`.
-fn roundtrip_doc(vals: &[i32], obs: &mut Obs) {
+fn roundtrip_doc(vals: &[i32], distinct: Distinct, obs: &mut Obs) {
     use std::fmt::Write;
     let mut doc = String::with_capacity(vals.len() * 28 + 32);
     doc.push_str("(LIGTABLE\n");
@@ -307,7 +321,15 @@ fn roundtrip_doc(vals: &[i32], obs: &mut Obs) {
     obs.add("roundtrip:abs_ge_16", big);
     obs.add("roundtrip:texts_with_7_fraction_digits", seven);
     obs.count("roundtrip:documents_read");
-    obs.nontrivial_by_construction(sent.len() as u64);
+    match distinct {
+        Distinct::ByConstruction => obs.nontrivial_by_construction(sent.len() as u64),
+        Distinct::Hashed => {
+            for v in &sent {
+                obs.nontrivial(&("rt", *v));
+            }
+        }
+        Distinct::AlreadyCounted => {}
+    }
     if obs.wants_sample() {
         let k = sent.len() / 2;
         obs.sample(json!({"document_entries": sent.len(), "example_bits": sent[k],
